@@ -31,6 +31,50 @@ def assigns(fn):
             yield n, n['lhs'], n['rhs']
 
 
+def _ec_param(f_):
+    ps = [p_.get('name') for p_ in f_.params if 'error_code &' in f_.ty(p_['t']) and 'const' not in f_.ty(p_['t']) and p_.get('name')]
+    return ps[0] if ps else None
+
+
+def sets_ec(fx, f_, memo):
+    """Every path through f_ assigns/clears its error_code out-parameter - directly, or by passing it to a repository
+    function that (recursively) does so on every path of its own."""
+    if f_.usr in memo:
+        return memo[f_.usr]
+    memo[f_.usr] = False          # recursion guard
+    ec = _ec_param(f_)
+    if ec is None or f_.cfg is None:
+        return False
+    wr = []
+    for n_ in f_.all_nodes():
+        if n_['k'] == 'call' and n_.get('opc') == '=' and n_.get('args') and q.render(f_, q.strip_casts(n_['args'][0])) == ec:
+            wr.append(n_)
+        elif n_['k'] == 'bin' and n_['op'] == '=' and q.render(f_, q.strip_casts(n_['lhs'])) == ec:
+            wr.append(n_)
+        elif n_['k'] == 'call' and is_node(n_.get('obj')) and q.render(f_, n_['obj']) == ec and (q.callee_name(n_) or '').split('::')[-1] in ('clear', 'assign'):
+            wr.append(n_)
+        elif n_['k'] == 'call' and any(is_node(a_) and q.render(f_, q.strip_casts(a_)) == ec for a_ in n_.get('args', [])) and 'error_code &' in (n_.get('csig') or ''):
+            gs = [g for g in fx.by_usr(n_.get('usr')) if g.cfg is not None] if n_.get('usr') else []
+            if not gs or sets_ec(fx, gs[0], memo):      # passed on as an out-parameter (bind(..., ec)); a callee without a body here (boost) is taken to report
+                wr.append(n_)
+    memo[f_.usr] = bool(wr) and q.on_all_paths(f_, wr)
+    return memo[f_.usr]
+
+
+def ec_sets_rule(run, names):
+    fx = run.fx
+    memo = {}
+    for fname, sigpart in names:
+        fs = [f_ for f_ in fx.fn(fname) if sigpart is None or (sigpart in f_.sig)]
+        if not fs:
+            run.broke('%s: no overload with an error_code out-parameter' % fname)
+        for f_ in fs:
+            run.touch(f_)
+            run.check(sets_ec(fx, f_, memo), 'R4', 'ec-set-on-every-path', fname, f_.loc(),
+                      'a path through %s returns without assigning or clearing ec (the success path): the caller\'s error_code keeps the value of an EARLIER call - after a would_block the next successful call still reads as failed (a receive that delivered a datagram is taken for nothing; an open()/close() that succeeded is reported as the failure of the call before it)' % fname.split('::')[-1],
+                      'ec assigned or cleared on every path')
+
+
 def check(run):
     fx = run.fx
     run.clause('R7 udp::socket::close(ec) resets every per-binding field (unread datagrams, byte account, forwarder, bindings, slots)')
@@ -193,22 +237,9 @@ def check(run):
     import p11
     p11.exact_key_rule(run)
     run.clause('the error_code a synchronous operation reports is the outcome of THAT call: every path through receive_from_impl / send_to_impl (and the TCP read/write twins) assigns or clears ec - a reader that drains until would_block and reuses its error_code must not see the stale would_block on the next successful receive')
-    for fname in (U + '::receive_from_impl', U + '::send_to_impl', 'sim::asio::ip::tcp::socket::read_some_impl', 'sim::asio::ip::tcp::socket::write_some_impl'):
-        f_ = fx.fn1(fname)
-        run.touch(f_)
-        wr = []
-        for n_ in f_.all_nodes():
-            if n_['k'] == 'call' and n_.get('opc') == '=' and n_.get('args') and q.render(f_, q.strip_casts(n_['args'][0])) == 'ec':
-                wr.append(n_)
-            elif n_['k'] == 'bin' and n_['op'] == '=' and q.render(f_, q.strip_casts(n_['lhs'])) == 'ec':
-                wr.append(n_)
-            elif n_['k'] == 'call' and is_node(n_.get('obj')) and q.render(f_, n_['obj']) == 'ec' and (q.callee_name(n_) or '').split('::')[-1] in ('clear', 'assign'):
-                wr.append(n_)
-            elif n_['k'] == 'call' and any(is_node(a_) and q.render(f_, q.strip_casts(a_)) == 'ec' for a_ in n_.get('args', [])) and 'error_code &' in (n_.get('csig') or ''):
-                wr.append(n_)       # passed on as an out-parameter (bind(..., ec))
-        run.check(bool(wr) and q.on_all_paths(f_, wr), 'R4', 'ec-set-on-every-path', fname, f_.loc(),
-                  'a path through %s returns without assigning or clearing ec (the success path): the caller\'s error_code keeps the value of an EARLIER call - after a would_block the next successful receive still reads as would_block and the datagram it delivered is taken for nothing' % fname.split('::')[-1],
-                  'ec assigned or cleared on every path')
+    ec_sets_rule(run, [(U + '::receive_from_impl', None), (U + '::send_to_impl', None), ('sim::asio::ip::tcp::socket::read_some_impl', None), ('sim::asio::ip::tcp::socket::write_some_impl', None),
+                       (U + '::open', 'error_code'), (U + '::close', 'error_code'), (U + '::cancel', 'error_code'),
+                       ('sim::asio::ip::tcp::socket::open', 'error_code'), ('sim::asio::ip::tcp::socket::close', 'error_code'), ('sim::asio::ip::tcp::socket::cancel', 'error_code'), ('sim::asio::ip::tcp::socket::available', 'error_code')])
     run.clause('a datagram that crossed a NAT is reported with the NAT\'s external address: the rewrite of the visible source is unconditional (shared with C13)')
     import p13
     p13.nat_from_rule(run)
